@@ -541,6 +541,32 @@ class StoreRun:
             node = l[1]
         return False
 
+    def _examine_crash_images(self, what):
+        """Producers that publish several collections (zoomify levels, scool cells): in every
+        crash image, whatever is recognised as a cooler must be structurally complete."""
+        from cooler import fileops as _fo
+
+        for k, snap in enumerate(self._snaps):
+            self.stat("snapshots")
+            try:
+                with warnings.catch_warnings():
+                    warnings.simplefilter("ignore")
+                    listed = _fo.list_coolers(snap)
+            except Exception:
+                listed = []
+            for p in listed:
+                errs = oracles.check_struct(snap, p, "%s snapshot#%d %s: " % (what, k, p))
+                if errs:
+                    self.violate("C13", "O-crash", ["recognised before it is complete"] + errs)
+                else:
+                    self.stat("crash-image-collections-valid")
+        for snap in self._snaps:
+            try:
+                os.remove(snap)
+            except OSError:
+                pass
+        self._snaps = []
+
     def _through_external(self, fs, fid, path):
         node = fs.files[fid]
         for name in split(path):
@@ -1486,9 +1512,10 @@ def _op_zoomify(self, op):
     fs_old = self.fs.clone()
     zfault = op.get("fault")
     self._arm_open_fault(zfault)
-    self._arm_snapshots(None)
+    self._arm_snapshots(fid)
     nconf0 = len(self.sim.flock_conflicts)
     exc, tracer = self._call(call, zfault)
+    self._examine_crash_images("zoomify")
     if zfault is not None and exc is not None and exc[0] not in ("SimDeadlock", "StepLimit"):
         # the run stopped: a file that still passes for multi-resolution must hold every
         # requested level, complete
@@ -1659,14 +1686,7 @@ def _op_scool(self, op):
             cg.children[failed_cell.split("/")[-1]] = ("h", self._fresh(None, None, dirty=True))
         return fs
 
-    snaps = list(self._snaps)
-    self._snaps = []
-    for sfile in snaps:
-        self.stat("snapshots")
-        try:
-            os.remove(sfile)
-        except OSError:
-            pass
+    self._examine_crash_images("scool")
     if fault is None or fault["kind"] == "count-lines":
         if exc is not None:
             self.violate("C17", "op-raised", ["create_scool raised %s: %s" % exc])
